@@ -233,6 +233,7 @@ func TestC13(t *testing.T) {
 				if p == 0 && state == 0 {
 					rec.Sample(c)
 				}
+				journal("C13", "c13pos", c)
 				if err := checkNullPos(&c); err != nil {
 					rec.Violation("c13pos", c, "", err)
 					rt.Fatalf("C13 violation (column %d of %d, state %d): %v", p, nc, state, err)
